@@ -138,8 +138,19 @@ def probes(R, C, state):
              ("load_basis:bad-cstat-char", "make_basis b7 %d %d %s %s" % (C, R, "9" + good_c[1:], good_r)),
              ("load_basis:bad-rstat-char", "make_basis b7 %d %d %s %s" % (C, R, good_c, good_r[:-1] + "7")),
              ("load_basis:rstat-free", "make_basis b7 %d %d %s %s" % (C, R, "1" + good_c[1:], good_r[:-1] + "3"))]
+        # mismatches that cancel out in nstruct+nrows, each internally consistent for its own dimensions (a stale basis
+        # kept across "add a row, delete a column" looks like this)
+        for k in (1, 2):
+            if R - k >= 1:
+                B.append(("load_basis:cols+%d-rows-%d" % (k, k), "make_basis b7 %d %d %s %s" % (C + k, R - k, good_c + "0" * k, "1" * (R - k))))
+            if C - k >= 0:
+                B.append(("load_basis:cols-%d-rows+%d" % (k, k), "make_basis b7 %d %d %s %s" % (C - k, R + k, good_c[:C - k] or "-", "1" * (R + k))))
         for lab, mk in B:
             P.append((lab, mk + "\nload_basis p0 b7"))
+            if "cols" in lab:
+                P.append((lab.replace("load_basis", "write_basis"), mk + "\nwrite_basis p0 b7 @W@/bad2.bas"))
+                P.append((lab.replace("load_basis", "basis_optimalstatus"), mk + "\nbasis_optimalstatus p0 b7"))
+                P.append((lab.replace("load_basis", "basis_dualstatus"), mk + "\nbasis_dualstatus p0 b7"))
         P += [("load_basis_array:no-basics", "load_basis_array p0 %s %s" % (good_c, "0" * R)),
               ("load_basis_array:too-many-basics", "load_basis_array p0 %s %s" % ("1" + good_c[1:], good_r)),
               ("load_basis_array:bad-char", "load_basis_array p0 %s %s" % ("Z" + good_c[1:], good_r)),
